@@ -544,6 +544,7 @@ class Exec:
             qual = f'{self.func.module}.{e.id}'
             h = self.callees.get(qual) or self.models.CALLEES.get(qual)
             if h is not None:
+                self.models.CALLEES_USED.add(qual)
                 return VFunc(qual, h)
         raise Unsupported(f'unbound name {e.id} at line {e.lineno}')
 
@@ -850,6 +851,7 @@ class Exec:
             h = self.callees.get(qual) or self.models.CALLEES.get(qual) or self.models.FUNCS.get(name)
             if h is None:
                 raise Unsupported(f'call of {qual} at line {e.lineno}: no contract available')
+            self.models.CALLEES_USED.add(qual)
             args = [self.ev(a, st) for a in e.args]
             kwargs = {k.arg: self.ev(k.value, st) for k in e.keywords}
             return h(self, st, args, kwargs, e)
